@@ -181,6 +181,23 @@ def _main(args):
     if viol_lines:
         exit_code = 1
 
+    # 5b. stateless clauses riding along (exhaustive small-range enumeration) ------------------
+    pure_info = None
+    pure_fn = registry.pure(prop)
+    if pure_fn is not None:
+        ncases, bad = pure_fn() if tier == "quick" else pure_fn(80, 12)
+        pure_info = {"technique": "exhaustive small-range enumeration, not simulation",
+                     "cases": ncases, "violation": bad}
+        if bad is not None:
+            v = {"property": prop, "machine": mname, "seed": seed, "run": "pure", "tier": tier,
+                 "kind": "pure", "config": {}, "trace": [], "oracle": "pure_clause",
+                 "op": "pure", "signature": "C20/pure/" + bad["what"], "detail": bad,
+                 "digest": ""}
+            path = core.write_replay(v)
+            viol_lines.append(f"VIOLATION property={prop} replay={path}")
+            say("violation (pure clause): " + json.dumps(bad, default=repr)[:800])
+            exit_code = 1
+
     # 6. evidence -----------------------------------------------------------------------
     wall = time.time() - t0
     dead = sorted(k for k, (s, f) in total.stats.faults.items() if f == 0)
@@ -217,6 +234,7 @@ def _main(args):
                               "logical steps (operations applied) are reported instead",
             "workers": args.workers,
             "search_wall_s": round(search_s, 2),
+            "pure_clauses": pure_info,
         },
         "assumptions": [
             "failures are injected only at the seams the property quantifies over (input text, "
@@ -241,6 +259,16 @@ def _main(args):
 
 def do_replay(core, mcls, prop, path, verbose):
     rep = core.load_replay(path)
+    if rep.get("kind") == "pure":
+        from . import registry
+        ncases, bad = registry.pure(prop)(80, 12)
+        if bad is None:
+            say(f"REPLAY property={prop} result=pass (pure clauses, {ncases} cases)")
+            return 0
+        say(f"REPLAY property={prop} result=violation oracle=pure_clause op=pure")
+        say("  detail: " + json.dumps(bad, default=repr)[:3000])
+        say(f"VIOLATION property={prop} replay={path}")
+        return 1
     r = core.run_trace(mcls, rep["config"], rep["trace"], known=None, keep_events=True)
     if verbose:
         for i, e in enumerate(r.error or []):
